@@ -251,6 +251,7 @@ def run(tier, seed):
     from props import _inproc
     _inproc.add(stats, fails, "decode_valid", seed, 12000 if tier == "quick" else 1500000)
     _inproc.add(stats, fails, "decode_defect", seed, 6000 if tier == "quick" else 500000)
+    _inproc.add(stats, fails, "decode_sym", seed, 8000 if tier == "quick" else 800000)
     oc = core.conclude(PID, fails, replay_case, confirm_runs=4)
     core.write_evidence(PID, tier, seed, "exploration", stats, RULE, time.time() - t0,
                         violations=len(oc.violations), extra=extra,
